@@ -1069,6 +1069,8 @@ class TorConfig:
                 if v == DEFAULT_VALUE or v == 'auto':
                     try:
                         initial = defaults[name[:-5]]
+                        if not isinstance(initial, list):
+                            initial = [initial]
                     except KeyError:
                         default_key = '__{}'.format(name[:-5])
                         default = yield self.protocol.get_conf_single(default_key)
@@ -1108,6 +1110,8 @@ class TorConfig:
                 parsed = self.parsers[rn].parse(v)
                 if parsed == [DEFAULT_VALUE]:
                     parsed = defaults.get(rn, [])
+                    if not isinstance(parsed, list):
+                        parsed = [parsed]
                 self.config[rn] = _ListWrapper(
                     parsed, functools.partial(self.mark_unsaved, rn))
 
